@@ -23,7 +23,39 @@ def run_property(prop: str, tier: str, repo: Repo | None = None, write_evidence=
     mod.run(chk)
     if tier == "thorough" and hasattr(mod, "run_thorough"):
         mod.run_thorough(chk)
+    if tier == "thorough" and not os.environ.get("IRISPIE_VERIF_SRC") and not os.environ.get("VERIF_NO_SELFTEST"):
+        _selftest_into_evidence(chk, prop)
     return chk.finish(write_evidence=write_evidence)
+
+
+def _selftest_into_evidence(chk, prop):
+    """Thorough tier: validate the rules of this property on scratch-copy mutants (must fire), twins (must stay silent) and the
+    archived seeded changes. The outcome is reported in the evidence and on stdout; it never changes the verdict on /repo."""
+    from .core import VIOLATED, load_known_findings
+    open_keys = {k["key"] for k in load_known_findings() if k.get("property") == prop and k.get("status") == "open"}
+    if any(o.status == VIOLATED and o.key not in open_keys for o in chk.obs):
+        chk.extra["selftest"] = {"skipped": "the tree under analysis has violations; mutants and twins are only meaningful on a clean tree"}
+        return
+    from . import selftest
+    try:
+        s = selftest.run_property(prop, jobs=int(os.environ.get("VERIF_JOBS", "16")))
+    except Exception as e:      # the self-test is auxiliary
+        chk.extra["selftest"] = {"error": f"{type(e).__name__}: {e}"}
+        return
+    chk.extra["selftest"] = {
+        "what": "each mutant is one realistic breakage of a clause applied to a scratch copy of the source (outside /repo and /verif); "
+                "the check must exit 1 naming the expected rule. Each twin is a behaviour-preserving rewrite; the check must stay silent. "
+                "seed:* entries are the archived patches of /verif/seeded written by authors who never saw the checker.",
+        "mutants": s["mutants"], "killed": s["killed"], "twins": s["twins"], "silent": s["silent"],
+        "survived": [r["id"] for r in s["survived"]], "twins_fired": [r["id"] for r in s["fired"]],
+        "skipped_edits": [f"{r['id']}: {r['why']}" for r in s["skipped"]], "wall_s": s["wall_s"],
+        "killed_ids": [r["id"] for r in s["results"] if r["status"] == "killed"],
+    }
+    print(f"    selftest: mutants killed {s['killed']}/{s['mutants']}, twins silent {s['silent']}/{s['twins']}, skipped {len(s['skipped'])} ({s['wall_s']}s)")
+    for r in s["survived"]:
+        print(f"    SELFTEST-WEAK mutant {r['id']} survived")
+    for r in s["fired"]:
+        print(f"    SELFTEST-WEAK twin {r['id']} fired")
 
 
 def main(argv=None) -> int:
